@@ -219,6 +219,8 @@ impl VersionManager {
                 .open(&temp_manifest_path)
                 .await?;
         }
+        #[cfg(risinglight_verif)]
+        crate::verif::point_sync("persist.tmp.created", &temp_manifest_path.to_string_lossy());
         // Write to tempfile
         let epoch = {
             let mut temp_manifest = Manifest::open(&temp_manifest_path, true).await?;
@@ -227,7 +229,11 @@ impl VersionManager {
         };
         // Rename this tempfile to manifest
         let manifest_path = manifest_dir_path.join(MANIFEST_FILE_NAME);
+        #[cfg(risinglight_verif)]
+        crate::verif::point_sync("persist.tmp.rename", &manifest_path.to_string_lossy());
         tokio::fs::rename(&temp_manifest_path, &manifest_path).await?;
+        #[cfg(risinglight_verif)]
+        crate::verif::point_sync("persist.tmp.renamed", &manifest_path.to_string_lossy());
         manifest.reopen(&manifest_path).await?;
         Ok(epoch)
     }
@@ -418,7 +424,13 @@ impl VersionManager {
                 .join(format!("{}_{}", table_id, rowset_id));
             info!("vacuum {}_{}", table_id, rowset_id);
             if !self.storage_options.disable_all_disk_operation {
+                #[cfg(risinglight_verif)]
+                let verif_path = path.to_string_lossy().to_string();
+                #[cfg(risinglight_verif)]
+                crate::verif::point_sync("persist.vacuum.unlink", &verif_path);
                 tokio::fs::remove_dir_all(path).await?;
+                #[cfg(risinglight_verif)]
+                crate::verif::point_sync("persist.vacuum.unlinked", &verif_path);
             }
             #[cfg(risinglight_verif)]
             crate::verif::point("vac.unlinked", &format!("{table_id}_{rowset_id}")).await;
